@@ -32,6 +32,7 @@ type racePath struct {
 	DownMs    int  `json:"down_ms"`
 	Blackhole bool `json:"blackhole,omitempty"`
 	LossPm    int  `json:"loss_permille,omitempty"`
+	Turn      bool `json:"relay_prefixed,omitempty"` // offered as "turn:<addr>": raced only after the direct candidates
 }
 
 type raceSpec struct {
@@ -48,8 +49,15 @@ func (raceHarness) Gen(r *verifsim.SplitMix, tier string, idx int) any {
 	sp := raceSpec{Seed: r.Next()}
 	n := 1 + r.Intn(4)
 	lat := []int{1, 2, 5, 10, 20, 25, 40, 50, 80, 100}
+	slow := []int{300, 600, 900, 1200, 1500, 2400} // handshakes that outlast the prober's own timers
 	for i := 0; i < n; i++ {
 		p := racePath{UpMs: lat[r.Intn(len(lat))], DownMs: lat[r.Intn(len(lat))]}
+		if r.Chance(1, 6) {
+			p.UpMs, p.DownMs = slow[r.Intn(len(slow))], slow[r.Intn(len(slow))]
+		}
+		if i > 0 && r.Chance(1, 5) {
+			p.Turn = true
+		}
 		if i > 0 && r.Chance(1, 3) {
 			// same round trip as the first path, split differently: handshakes finish together on the dialer
 			rtt := sp.Paths[0].UpMs + sp.Paths[0].DownMs
@@ -136,13 +144,17 @@ func (raceHarness) Run(spec any) (res verifsim.RunResult) {
 			for i, p := range sp.Paths {
 				up := &verifsim.UDPPath{Alias: &net.UDPAddr{IP: net.IPv4(10, 0, 2, byte(i+1)), Port: 4000}, Up: time.Duration(p.UpMs) * time.Millisecond, Down: time.Duration(p.DownMs) * time.Millisecond, Blackhole: p.Blackhole, LossPm: p.LossPm}
 				unet.AddPath(D, L, up)
-				cands = append(cands, up.Alias.String())
+				if p.Turn {
+					cands = append(cands, "turn:"+up.Alias.String())
+				} else {
+					cands = append(cands, up.Alias.String())
+				}
 			}
 			if sp.Dup {
 				cands = append(cands, cands[0])
 			}
 			if sp.TurnPref {
-				cands = append(cands, "turn:"+cands[len(sp.Paths)-1])
+				cands = append(cands, "turn:"+strings.TrimPrefix(cands[len(sp.Paths)-1], "turn:"))
 			}
 			if sp.Bogus {
 				cands = append(cands, "10.9.9.9:1", "not-an-address")
@@ -249,13 +261,15 @@ func (raceHarness) Run(spec any) (res verifsim.RunResult) {
 			facts = append(facts, "dialer="+dp, "acceptor="+ap, fmt.Sprintf("dialErr=%v", dialErr != nil), fmt.Sprintf("dialAuthOK=%v acceptAuthOK=%v", dialAuth == nil, acceptAuth == nil))
 			usable := 0
 			for _, p := range sp.Paths {
-				if !p.Blackhole {
+				// (a round trip near quic-go's 5 s handshake idle timeout may legitimately fail)
+				if !p.Blackhole && p.UpMs+p.DownMs <= 3000 {
 					usable++
 				}
 			}
+			slowOnly := usable == 0
 			switch {
-			case dialErr != nil && usable == 0:
-				res.Skipped = true // nothing reachable: failing is correct
+			case dialErr != nil && slowOnly:
+				res.Skipped = true // nothing reachable (in time): failing is correct
 			case dialErr != nil:
 				addV("dial-failed-with-reachable-path", fmt.Sprintf("usable=%d", min(usable, 2)), fmt.Sprintf("ProbeAndDial failed although %d of %d paths are reachable: %v", usable, len(sp.Paths), dialErr))
 			default:
